@@ -160,7 +160,7 @@ Lemma recv_sum_zero trk c : Forall (fun t => t_recv t = 0) trk -> recv_sum trk c
 Proof. induction 1 as [|t l Ht _ IH]; cbn [recv_sum]; [reflexivity|]. unfold contrib. rewrite Ht, IH. destruct (_ =? _); reflexivity. Qed.
 
 Lemma inflight_app ch m c :
-  inflight (ch ++ [m]) c = inflight ch c + match m with MyRef k _ => if k =? c then 1 else 0 | Ack _ => 0 end.
+  inflight (ch ++ [m]) c = inflight ch c + match m with MyRef k _ _ => if k =? c then 1 else 0 | Ack _ => 0 end.
 Proof. induction ch as [|a l IH]; cbn [app inflight]; [destruct m; lia|]. destruct a; rewrite IH; lia. Qed.
 
 Lemma inflight_nonneg ch c : 0 <= inflight ch c.
@@ -178,7 +178,7 @@ Proof. induction 1 as [|a l Ha _ IH]; cbn [decs]; [lia|]. destruct a; cbn in Ha;
 Lemma cnt_nonneg l c : 0 <= cnt l c.
 Proof. induction l as [|a l IH]; cbn [cnt]; [lia|]. destruct (_ =? _); lia. Qed.
 
-Lemma inflight_in ch c d : In (MyRef c d) ch -> 1 <= inflight ch c.
+Lemma inflight_in ch c d w : In (MyRef c d w) ch -> 1 <= inflight ch c.
 Proof.
   induction ch as [|a l IH]; cbn [In inflight]; [tauto|]. intros [->|H].
   - rewrite Z.eqb_refl. pose proof (inflight_nonneg l c). lia.
@@ -349,10 +349,10 @@ Lemma get_ref_facts t np :
   (t_proxy t = Some p \/ (t_proxy t = None /\ p = np)).
 Proof. unfold get_ref. destruct (t_proxy t) as [q|] eqn:E; cbn; rewrite getRef_incr_spec; auto 6. Qed.
 
-Definition myref_trk (s : state) (c : Z) : list tracker :=
+Definition myref_trk (s : state) (c : Z) (w : option Z) : list tracker :=
   match tab_get (h_tab (hd s)) c with
   | Some _ => h_trk (hd s)
-  | None => h_trk (hd s) ++ [{| t_clid := c; t_recv := 0; t_proxy := None |}] end.
+  | None => h_trk (hd s) ++ [{| t_clid := c; t_recv := 0; t_proxy := None; t_url := w |}] end.
 Definition myref_tab (s : state) (c : Z) : list (Z * nat) :=
   match tab_get (h_tab (hd s)) c with
   | Some _ => h_tab (hd s)
@@ -372,31 +372,31 @@ Definition myref_core (s : state) (trk : list tracker) (tab : list (Z * nat)) (i
   | None => (s, [])
   end.
 
-Lemma do_myref_eq s c rest : do_myref s c rest = myref_core s (myref_trk s c) (myref_tab s c) (myref_idx s c) rest.
+Lemma do_myref_eq s c w rest : do_myref s c w rest = myref_core s (myref_trk s c w) (myref_tab s c) (myref_idx s c) rest.
 Proof. unfold do_myref, myref_core, myref_trk, myref_tab, myref_idx. destruct (tab_get (h_tab (hd s)) c); reflexivity. Qed.
 
-Lemma myref_nth s c : Inv s -> exists t, nth_error (myref_trk s c) (myref_idx s c) = Some t /\ t_clid t = c.
+Lemma myref_nth s c w : Inv s -> exists t, nth_error (myref_trk s c w) (myref_idx s c) = Some t /\ t_clid t = c.
 Proof.
   intros I. unfold myref_trk, myref_idx. destruct (tab_get (h_tab (hd s)) c) as [i|] eqn:G.
   - apply (inv_tab s I) in G. exact G.
   - eexists. split; [apply nth_error_app_last | reflexivity].
 Qed.
 
-Lemma Inv_myref s c rest : Inv s -> ch_oh s = MyRef c false :: rest -> Inv (fst (do_myref s c rest)).
+Lemma Inv_myref s c w rest : Inv s -> ch_oh s = MyRef c false w :: rest -> Inv (fst (do_myref s c w rest)).
 Proof.
   intros I Hch. rewrite do_myref_eq.
-  assert (Hsum : forall k, recv_sum (myref_trk s c) k = recv_sum (h_trk (hd s)) k).
+  assert (Hsum : forall k, recv_sum (myref_trk s c w) k = recv_sum (h_trk (hd s)) k).
   { intros k. unfold myref_trk. destruct (tab_get _ _); [reflexivity|]. rewrite recv_sum_app. unfold contrib. cbn.
     destruct (_ =? _); lia. }
-  assert (Hrecv0 : Forall (fun t => 0 <= t_recv t) (myref_trk s c)).
+  assert (Hrecv0 : Forall (fun t => 0 <= t_recv t) (myref_trk s c w)).
   { unfold myref_trk. destruct (tab_get _ _); [apply (inv_recv s I)|]. apply Forall_app. split; [apply (inv_recv s I)|].
     constructor; [cbn; lia | constructor]. }
-  assert (Halive0 : Forall (fun t => t_proxy t <> None -> 1 <= t_recv t) (myref_trk s c)).
+  assert (Halive0 : Forall (fun t => t_proxy t <> None -> 1 <= t_recv t) (myref_trk s c w)).
   { unfold myref_trk. destruct (tab_get _ _); [apply (inv_alive s I)|]. apply Forall_app. split; [apply (inv_alive s I)|].
     constructor; [cbn; congruence | constructor]. }
-  pose proof (myref_nth s c I) as Hnth.
+  pose proof (myref_nth s c w I) as Hnth.
   assert (Htab0 : forall k j, tab_get (myref_tab s c) k = Some j ->
-                              exists t, nth_error (myref_trk s c) j = Some t /\ t_clid t = k).
+                              exists t, nth_error (myref_trk s c w) j = Some t /\ t_clid t = k).
   { intros k j. unfold myref_tab, myref_trk. destruct (tab_get (h_tab (hd s)) c) as [i|] eqn:G.
     - apply (inv_tab s I).
     - cbn [tab_get]. destruct (c =? k) eqn:Ek.
@@ -404,7 +404,7 @@ Proof.
         eexists. split; [apply nth_error_app_last | reflexivity].
       + intros H. apply (inv_tab s I) in H as (t & H1 & H2). exists t. split; [|exact H2].
         rewrite nth_error_app1; [exact H1 | apply nth_error_Some; congruence]. }
-  assert (Hpend0 : forall j t, nth_error (myref_trk s c) j = Some t -> 1 <= t_recv t ->
+  assert (Hpend0 : forall j t, nth_error (myref_trk s c w) j = Some t -> 1 <= t_recv t ->
                                t_proxy t <> None \/ In j (h_pend (hd s))).
   { intros j t. unfold myref_trk. destruct (tab_get (h_tab (hd s)) c) as [i|] eqn:G; [apply (inv_pend s I)|].
     intros H. destruct (Nat.lt_ge_cases j (List.length (h_trk (hd s)))) as [Hl|Hl].
@@ -412,7 +412,7 @@ Proof.
     - rewrite nth_error_app2 in H by exact Hl. destruct (j - List.length (h_trk (hd s)))%nat as [|n]; cbn in H.
       + inversion H; subst t. cbn. lia.
       + destruct n; discriminate. }
-  generalize dependent (myref_trk s c). generalize dependent (myref_tab s c). generalize dependent (myref_idx s c).
+  generalize dependent (myref_trk s c w). generalize dependent (myref_tab s c). generalize dependent (myref_idx s c).
   intros i0 tab0 trk0 Hsum Hrecv0 Halive0 Hnth Htab0 Hpend0.
   unfold myref_core. destruct Hnth as (t & Ht & Hc). rewrite Ht.
   pose proof (get_ref_facts t (h_nextpid (hd s))) as G. destruct (get_ref t (h_nextpid (hd s))) as [[t' p] np].
@@ -424,13 +424,13 @@ Proof.
   - apply Forall_upd_nth; [assumption | intros a _ _; lia].
   - apply (inv_dpos s I).
   - apply (inv_own s I).
-  - intros k j Hk. apply Htab0 in Hk as (u & Hu & Hku). rewrite nth_error_upd_nth.
+  - intros k j Hk. apply Htab0 in Hk as (u' & Hu & Hku). rewrite nth_error_upd_nth.
     destruct (Nat.eqb j i0) eqn:Ej; [|eauto].
     apply Nat.eqb_eq in Ej. subst j. rewrite Hu. cbn [option_map]. eexists. split; [reflexivity|].
-    rewrite Ht in Hu. inversion Hu; subst u. congruence.
+    rewrite Ht in Hu. inversion Hu; subst u'. congruence.
   - apply Forall_upd_nth; [assumption | intros a _ _ _; lia].
-  - intros j u. rewrite nth_error_upd_nth. destruct (Nat.eqb j i0) eqn:Ej; [|apply Hpend0].
-    intros Hu _. apply Nat.eqb_eq in Ej. subst j. rewrite Ht in Hu. cbn [option_map] in Hu. inversion Hu; subst u.
+  - intros j u'. rewrite nth_error_upd_nth. destruct (Nat.eqb j i0) eqn:Ej; [|apply Hpend0].
+    intros Hu _. apply Nat.eqb_eq in Ej. subst j. rewrite Ht in Hu. cbn [option_map] in Hu. inversion Hu; subst u'.
     left. congruence.
   - apply (inv_home s I).
   - apply (inv_nofail s I).
@@ -466,7 +466,7 @@ Qed.
 
 Lemma Inv_recv_oh s : Inv s -> Inv (fst (do_recv_oh s)).
 Proof.
-  intros I. unfold do_recv_oh. destruct (ch_oh s) as [|[c [|]|rid] rest] eqn:Hch; cbn [fst]; auto.
+  intros I. unfold do_recv_oh. destruct (ch_oh s) as [|[c [|] w|rid] rest] eqn:Hch; cbn [fst]; auto.
   - (* discarded my-reference: the holder never counts it *)
     constructor; cbn [ow hd ch_oh ch_ho leaked]; try apply I.
     intros k. pose proof (inv_count s I k) as E. rewrite Hch in E. cbn [inflight] in E. cbn [cnt]. lia.
@@ -555,13 +555,13 @@ Proof.
     assert (Ht0 : 0 <= t_recv t).
     { pose proof (inv_recv s I) as H. rewrite Forall_forall in H. apply H. eapply nth_error_In; eauto. }
     assert (Hpend2 : forall j u, nth_error (upd_nth (h_trk (hd s)) i
-                         (fun t0 => {| t_clid := t_clid t0; t_recv := 0; t_proxy := t_proxy t0 |})) j = Some u ->
+                         (fun t0 => {| t_clid := t_clid t0; t_recv := 0; t_proxy := t_proxy t0; t_url := t_url t0 |})) j = Some u ->
                        1 <= t_recv u -> t_proxy u <> None \/ In j pend).
     { intros j u. rewrite nth_error_upd_nth. destruct (Nat.eqb j i) eqn:Ej.
       - apply Nat.eqb_eq in Ej. subst j. rewrite Ht. cbn [option_map]. intros Hu; inversion Hu; subst u. cbn. lia.
       - apply Nat.eqb_neq in Ej. intros Hu Hr. apply Hpend'; assumption. }
     assert (Htab2 : forall c j, tab_get (h_tab (hd s)) c = Some j -> exists u,
-              nth_error (upd_nth (h_trk (hd s)) i (fun t0 => {| t_clid := t_clid t0; t_recv := 0; t_proxy := t_proxy t0 |})) j
+              nth_error (upd_nth (h_trk (hd s)) i (fun t0 => {| t_clid := t_clid t0; t_recv := 0; t_proxy := t_proxy t0; t_url := t_url t0 |})) j
               = Some u /\ t_clid u = c).
     { intros c j H. apply (inv_tab s I) in H as (u & Hu & Hc). rewrite nth_error_upd_nth.
       destruct (Nat.eqb j i); [rewrite Hu; cbn; eauto | eauto]. }
@@ -786,9 +786,9 @@ Lemma Attached_step s o : Inv s -> Attached s -> safe_op s o = true -> Attached 
 Proof.
   intros I A Hs. unfold Attached in *. unfold step. destruct (lost s) eqn:Hl; [exact A|]. destruct o; cbn [fst].
   - unfold do_send. destruct (find_obj _ _); rewrite send_spec; exact A.
-  - unfold do_recv_oh. destruct (ch_oh s) as [|[c [|]|rid] rest] eqn:Hch; cbn [fst]; try exact A.
+  - unfold do_recv_oh. destruct (ch_oh s) as [|[c [|] w|rid] rest] eqn:Hch; cbn [fst]; try exact A.
     + (* my-reference *)
-      rewrite do_myref_eq. unfold myref_core. destruct (myref_nth s c I) as (t & Ht & Hc). rewrite Ht.
+      rewrite do_myref_eq. unfold myref_core. destruct (myref_nth s c w I) as (t & Ht & Hc). rewrite Ht.
       pose proof (get_ref_facts t (h_nextpid (hd s))) as G. destruct (get_ref t (h_nextpid (hd s))) as [[t' p] np].
       destruct G as (G1 & G2 & G3 & G4). cbn [fst hd h_trk h_tab].
       intros j u. rewrite nth_error_upd_nth. destruct (Nat.eqb j (myref_idx s c)) eqn:Ej.
@@ -829,7 +829,7 @@ Proof.
     destruct (nth_error (h_trk (hd s)) i) as [t|] eqn:Ht; [|exact A].
     destruct (t_proxy t); [exact A|]. rewrite handleRefLost_assign_spec.
     assert (Hcore : forall j u, nth_error (upd_nth (h_trk (hd s)) i
-                        (fun t0 => {| t_clid := t_clid t0; t_recv := 0; t_proxy := t_proxy t0 |})) j = Some u ->
+                        (fun t0 => {| t_clid := t_clid t0; t_recv := 0; t_proxy := t_proxy t0; t_url := t_url t0 |})) j = Some u ->
                       1 <= t_recv u -> tab_get (h_tab (hd s)) (t_clid u) = Some j).
     { intros j u. rewrite nth_error_upd_nth. destruct (Nat.eqb j i); [|apply A].
       destruct (nth_error (h_trk (hd s)) j); cbn [option_map]; [|discriminate].
@@ -959,12 +959,12 @@ Qed.
    delivers that very proxy *)
 Theorem same_proxy_with_identity_rule ops :
   let s := run_k DelByIdentity init ops in
-  forall i t p rest,
+  forall i t p w rest,
     lost s = false -> nth_error (h_trk (hd s)) i = Some t -> t_proxy t = Some p ->
-    ch_oh s = MyRef (t_clid t) false :: rest ->
+    ch_oh s = MyRef (t_clid t) false w :: rest ->
     snd (step_k DelByIdentity s RecvOH) = [EvDelivered p].
 Proof.
-  intros s i t p rest Hl Ht Hp Hch.
+  intros s i t p w rest Hl Ht Hp Hch.
   pose proof (Inv_run_k DelByIdentity ops init Inv_init) as I. fold s in I.
   pose proof (Attached_run_id ops init Inv_init Attached_init) as A. fold s in A.
   assert (Hr : 1 <= t_recv t).
@@ -992,9 +992,9 @@ Qed.
 Theorem same_proxy_if_identity_rule :
   freeTracker_delkey = DelByIdentity ->
   forall ops, let s := run init ops in
-  forall i t p rest,
+  forall i t p w rest,
     lost s = false -> nth_error (h_trk (hd s)) i = Some t -> t_proxy t = Some p ->
-    ch_oh s = MyRef (t_clid t) false :: rest ->
+    ch_oh s = MyRef (t_clid t) false w :: rest ->
     snd (step s RecvOH) = [EvDelivered p].
 Proof.
   intros E ops. cbv zeta. rewrite <- run_k_current, <- step_k_current, E. apply same_proxy_with_identity_rule.
@@ -1011,9 +1011,9 @@ Proof. vm_compute. split; reflexivity. Qed.
    run; `eq_refl` stops type-checking the moment the source deletes by anything but identity) *)
 Theorem same_proxy ops :
   let s := run init ops in
-  forall i t p rest,
+  forall i t p w rest,
     lost s = false -> nth_error (h_trk (hd s)) i = Some t -> t_proxy t = Some p ->
-    ch_oh s = MyRef (t_clid t) false :: rest ->
+    ch_oh s = MyRef (t_clid t) false w :: rest ->
     snd (step s RecvOH) = [EvDelivered p].
 Proof. exact (same_proxy_if_identity_rule eq_refl ops). Qed.
 
@@ -1058,12 +1058,12 @@ Qed.
 Theorem same_proxy_guarded k ops :
   safe_run_k k init ops ->
   let s := run_k k init ops in
-  forall i t p rest,
+  forall i t p w rest,
     lost s = false -> nth_error (h_trk (hd s)) i = Some t -> t_proxy t = Some p ->
-    ch_oh s = MyRef (t_clid t) false :: rest ->
+    ch_oh s = MyRef (t_clid t) false w :: rest ->
     snd (step_k k s RecvOH) = [EvDelivered p].
 Proof.
-  intros Hs s i t p rest Hl Ht Hp Hch.
+  intros Hs s i t p w rest Hl Ht Hp Hch.
   pose proof (Inv_run_k k ops init Inv_init) as I. fold s in I.
   pose proof (Attached_run_k k ops init Inv_init Attached_init Hs) as A. fold s in A.
   assert (Hr : 1 <= t_recv t).
@@ -1075,12 +1075,12 @@ Qed.
 
 Theorem same_proxy_refuted_under_clid_rule :
   exists ops, let s := run_k DelByClid init ops in
-  exists i t p rest,
+  exists i t p w rest,
     lost s = false /\ nth_error (h_trk (hd s)) i = Some t /\ t_proxy t = Some p /\
-    ch_oh s = MyRef (t_clid t) false :: rest /\ snd (step_k DelByClid s RecvOH) <> [EvDelivered p].
+    ch_oh s = MyRef (t_clid t) false w :: rest /\ snd (step_k DelByClid s RecvOH) <> [EvDelivered p].
 Proof.
   exists d16_ops. cbv zeta.
-  exists 1%nat, {| t_clid := 1; t_recv := 1; t_proxy := Some 2 |}, 2, [].
+  exists 1%nat, {| t_clid := 1; t_recv := 1; t_proxy := Some 2; t_url := None |}, 2, None, [].
   vm_compute. repeat split; discriminate.
 Qed.
 
@@ -1120,13 +1120,13 @@ Qed.
 (* what the owner puts on the wire for object x is a clid allocated for x (and for nothing else: alloc_functional) *)
 Theorem send_names_object ops x d :
   let s := run init ops in lost s = false ->
-  exists c, ch_oh (fst (step s (Send x d))) = ch_oh s ++ [MyRef c d] /\ In (c, x) (o_alloc (ow (fst (step s (Send x d))))).
+  exists c w, ch_oh (fst (step s (Send x d))) = ch_oh s ++ [MyRef c d w] /\ In (c, x) (o_alloc (ow (fst (step s (Send x d))))).
 Proof.
   intros s Hl. pose proof (OwnWf_run ops init OwnWf_init) as W. fold s in W.
   unfold step. rewrite Hl. unfold do_send. destruct (find_obj (o_tab (ow s)) x) as [e|] eqn:F; rewrite send_spec; cbn [fst ch_oh ow o_alloc].
-  - exists (oe_clid e). split; [reflexivity|]. apply find_some in F as [Hin Ex]. apply Z.eqb_eq in Ex.
+  - exists (oe_clid e). eexists. split; [reflexivity|]. apply find_some in F as [Hin Ex]. apply Z.eqb_eq in Ex.
     pose proof (ow_logged s W) as G. rewrite Forall_forall in G. specialize (G e Hin). rewrite Ex in G. exact G.
-  - eexists. split; [reflexivity | left; reflexivity].
+  - eexists. eexists. split; [reflexivity | left; reflexivity].
 Qed.
 
 Theorem alloc_functional ops :
@@ -1214,9 +1214,9 @@ Lemma ProxWf_step s o : Inv s -> ProxWf s -> ProxWf (fst (step s o)).
 Proof.
   intros I W. unfold ProxWf in *. unfold step. destruct (lost s); [exact W|]. destruct o; cbn [fst].
   - unfold do_send. destruct (find_obj _ _); rewrite send_spec; exact W.
-  - unfold do_recv_oh. destruct (ch_oh s) as [|[c [|]|rid] rest] eqn:Hch; cbn [fst]; try exact W.
-    rewrite do_myref_eq. unfold myref_core. destruct (myref_nth s c I) as (t & Ht & Hc). rewrite Ht.
-    assert (W0 : PW (h_nextpid (hd s)) (myref_trk s c)).
+  - unfold do_recv_oh. destruct (ch_oh s) as [|[c [|] w|rid] rest] eqn:Hch; cbn [fst]; try exact W.
+    rewrite do_myref_eq. unfold myref_core. destruct (myref_nth s c w I) as (t & Ht & Hc). rewrite Ht.
+    assert (W0 : PW (h_nextpid (hd s)) (myref_trk s c w)).
     { unfold myref_trk. destruct (tab_get _ _); [exact W | apply PW_app_none; [exact W | reflexivity]]. }
     unfold get_ref. destruct (t_proxy t) as [q|] eqn:Hq; cbn [fst hd h_trk h_nextpid].
     + apply PW_upd_sub; [exact W0|]. intros u p Hu Hp. rewrite Ht in Hu. inversion Hu; subst u. cbn in Hp. congruence.
@@ -1261,8 +1261,8 @@ Proof.
                exists u0, nth_error (h_trk (hd s)) j = Some u0 /\ t_proxy u0 = Some p /\ t_clid u0 = t_clid u) by (intros; exists u; auto).
   unfold step in *. destruct (lost s) eqn:Hl; [cbn [fst] in Hl'; congruence|]. destruct o; cbn [fst] in *.
   - unfold do_send. destruct (find_obj _ _); rewrite send_spec; cbn [fst hd]; exact K0.
-  - unfold do_recv_oh. destruct (ch_oh s) as [|[c [|]|rid] rest] eqn:Hch; cbn [fst hd]; try exact K0.
-    rewrite do_myref_eq. unfold myref_core. destruct (myref_nth s c I) as (t & Ht & Hc). rewrite Ht.
+  - unfold do_recv_oh. destruct (ch_oh s) as [|[c [|] w|rid] rest] eqn:Hch; cbn [fst hd]; try exact K0.
+    rewrite do_myref_eq. unfold myref_core. destruct (myref_nth s c w I) as (t & Ht & Hc). rewrite Ht.
     unfold get_ref. destruct (t_proxy t) as [q|] eqn:Hq; cbn [fst hd h_trk]; rewrite nth_error_upd_nth; destruct (Nat.eqb j (myref_idx s c)) eqn:E.
     + apply Nat.eqb_eq in E. subst j. rewrite Ht. cbn [option_map]. intros Eq Hp Hlt. inversion Eq; subst u. cbn in Hp. cbn [t_clid].
       unfold myref_trk, myref_idx in *. destruct (tab_get (h_tab (hd s)) c) as [i0|] eqn:G.
@@ -1288,7 +1288,7 @@ Proof.
     destruct (nth_error (h_trk (hd s)) j) as [u0|]; cbn [option_map]; [|discriminate]. intros Eq Hp. inversion Eq; subst u. discriminate.
   - unfold do_reflost. destruct (h_pend (hd s)) as [|i pend]; [exact K0|]. destruct (nth_error (h_trk (hd s)) i) as [t|] eqn:Ht; [|exact K0].
     destruct (t_proxy t) eqn:Hq; [cbn [fst hd]; exact K0|]. destruct (handleRefLost_assign (t_recv t)) as [cnt0 r'].
-    assert (K : nth_error (upd_nth (h_trk (hd s)) i (fun t0 => {| t_clid := t_clid t0; t_recv := r'; t_proxy := t_proxy t0 |})) j = Some u ->
+    assert (K : nth_error (upd_nth (h_trk (hd s)) i (fun t0 => {| t_clid := t_clid t0; t_recv := r'; t_proxy := t_proxy t0; t_url := t_url t0 |})) j = Some u ->
                 t_proxy u = Some p -> p < h_nextpid (hd s) ->
                 exists u0, nth_error (h_trk (hd s)) j = Some u0 /\ t_proxy u0 = Some p /\ t_clid u0 = t_clid u).
     { rewrite nth_error_upd_nth. destruct (Nat.eqb j i) eqn:E; [|intros; exists u; auto].
@@ -1336,14 +1336,14 @@ Proof. induction ops as [|o r IH]; intros s; cbn [run]; [lia|]. pose proof (next
 (* ---- the interface the three-party model relies on, proved of the two-party model ---------------------------------- *)
 
 (* (I1) delivery: a my-reference whose clid was allocated for x is delivered as a proxy that designates x *)
-Theorem delivery_denotes ops c x rest :
+Theorem delivery_denotes ops c x w rest :
   let s := run init ops in
-  lost s = false -> ch_oh s = MyRef c false :: rest -> In (c, x) (o_alloc (ow s)) ->
+  lost s = false -> ch_oh s = MyRef c false w :: rest -> In (c, x) (o_alloc (ow s)) ->
   exists p, snd (step s RecvOH) = [EvDelivered p] /\ denotes (fst (step s RecvOH)) p x /\ lost (fst (step s RecvOH)) = false.
 Proof.
   intros s Hl Hch Ha. pose proof (Inv_reachable ops) as I. fold s in I.
   unfold step. rewrite Hl. unfold do_recv_oh. rewrite Hch, do_myref_eq. unfold myref_core.
-  destruct (myref_nth s c I) as (t & Ht & Hc). rewrite Ht.
+  destruct (myref_nth s c w I) as (t & Ht & Hc). rewrite Ht.
   pose proof (get_ref_facts t (h_nextpid (hd s))) as G. destruct (get_ref t (h_nextpid (hd s))) as [[t' p] np].
   destruct G as (G1 & G2 & G3 & G4). cbn [fst snd]. exists p. split; [reflexivity|]. split; [|exact Hl].
   exists (myref_idx s c), t'. cbn [hd h_trk ow]. rewrite nth_error_upd_nth, Nat.eqb_refl, Ht. cbn [option_map].
@@ -1407,7 +1407,7 @@ Theorem no_early_release ops :
   let s := run init ops in
   forall c, lost s = false ->
     (exists i t, nth_error (h_trk (hd s)) i = Some t /\ t_proxy t <> None /\ t_clid t = c) \/
-    (exists d, In (MyRef c d) (ch_oh s)) \/ (exists k, In (ToOwner c k) (ch_ho s)) ->
+    (exists d w, In (MyRef c d w) (ch_oh s)) \/ (exists k, In (ToOwner c k) (ch_ho s)) ->
     exists e, find_clid (o_tab (ow s)) c = Some e /\ 1 <= oe_rc e /\ In (c, oe_obj e) (o_alloc (ow s)).
 Proof.
   intros s c Hl H. pose proof (Inv_reachable ops) as I. fold s in I.
@@ -1415,11 +1415,11 @@ Proof.
   assert (P : 0 < rc (o_tab (ow s)) c).
   { pose proof (recv_sum_nonneg _ c (inv_recv s I)). pose proof (inflight_nonneg (ch_oh s) c).
     pose proof (decs_nonneg _ c (inv_dpos s I)). pose proof (cnt_nonneg (leaked s) c).
-    destruct H as [(i & t & Ht & Hp & Hc)|[(d & Hin)|(k & Hin)]].
+    destruct H as [(i & t & Ht & Hp & Hc)|[(d & w & Hin)|(k & Hin)]].
     - rewrite (inv_count s I c). pose proof (recv_sum_ge _ _ _ c (inv_recv s I) Ht) as G. unfold contrib in G.
       rewrite Hc, Z.eqb_refl in G. pose proof (inv_alive s I) as A. rewrite Forall_forall in A.
       specialize (A t (nth_error_In _ _ Ht) Hp). lia.
-    - rewrite (inv_count s I c). pose proof (inflight_in _ _ _ Hin). lia.
+    - rewrite (inv_count s I c). pose proof (inflight_in _ _ _ _ Hin). lia.
     - eapply home_ok_in; [apply (inv_dpos s I) | apply (inv_home s I) | exact Hin]. }
   destruct (rc_pos_found _ _ P) as (e & F & R). exists e. split; [exact F|]. split; [lia|].
   pose proof (ow_logged s W) as G. rewrite Forall_forall in G. apply find_clid_some in F as [Hin Ec].
@@ -1662,3 +1662,281 @@ Qed.
 Example counting_while_subscribing_releases_early :
   aa_fired (aand_new CountWhileSubscribing [true; false]) = true /\ npending [true; false] = 1%nat.
 Proof. split; reflexivity. Qed.
+
+(* ---------------------------------------------------------------- one placeholder in several places *)
+Lemma fire_with_none passes : forall ps, fire_with passes None ps = map (fun _ => None) ps.
+Proof.
+  induction ps as [|k r IH]; cbn [fire_with map]; [reflexivity|].
+  destruct (passes k); rewrite IH; reflexivity.
+Qed.
+
+Lemma fire_with_all passes : (forall k, passes k = true) ->
+  forall ps cur, fire_with passes cur ps = map (fun _ => cur) ps.
+Proof.
+  intros H. induction ps as [|k r IH]; intros cur; cbn [fire_with map]; [reflexivity|].
+  rewrite (H k), IH. reflexivity.
+Qed.
+
+(* every update callback of the source passes the object on (each of the five facts is re-read on every run; the proof is
+   `reflexivity` on them and stops type-checking as soon as one callback can end without returning its argument) *)
+Lemma place_passes_all : forall k, place_passes k = true.
+Proof. destruct k; reflexivity. Qed.
+
+Theorem shared_placeholder_reaches_every_place : forall v ps,
+  fire (Some v) ps = map (fun _ => Some v) ps.
+Proof. intros v ps. unfold fire. apply fire_with_all. exact place_passes_all. Qed.
+
+(* the statement discriminates, for any table of callbacks: after the first place whose callback does not return its
+   argument, every later place is left with nothing *)
+Theorem shared_placeholder_lost_after_nonpassing : forall passes ps1 k ps2 v,
+  (forall x, In x ps1 -> passes x = true) -> passes k = false ->
+  fire_with passes (Some v) (ps1 ++ k :: ps2) = map (fun _ => Some v) (ps1 ++ [k]) ++ map (fun _ => None) ps2.
+Proof.
+  intros passes ps1. induction ps1 as [|a r IH]; intros k ps2 v H1 Hk.
+  - cbn [app fire_with map]. rewrite Hk, fire_with_none. reflexivity.
+  - cbn [app fire_with map]. rewrite (H1 a (or_introl eq_refl)). f_equal. apply IH; [|exact Hk].
+    intros x Hx. apply H1. right. exact Hx.
+Qed.
+
+Example shared_placeholder_three_places :
+  fire (Some 7) [PArg; PArg; PList; PDict] = [Some 7; Some 7; Some 7; Some 7].
+Proof. reflexivity. Qed.
+
+Example shared_placeholder_second_argument_lost :
+  fire_with (fun k => match k with PArg => false | _ => true end) (Some 7) [PArg; PArg] = [Some 7; None].
+Proof. reflexivity. Qed.
+
+(* ---------------------------------------------------------------- the FURL a holder knows for a proxy (interface between this
+   model and the three-party model lib/Gifts.v: the giver can hand a proxy on only by the FURL its tracker carries)
+   A my-reference carries the object's FURL (and interface name) only when ReferenceableTracker.send() reports "first";
+   the holder's tracker takes the URL of the message that CREATES it and never changes it. *)
+Definition url_ok (al : list (Z * Z)) (c : Z) (u : option Z) : Prop := forall x, u = Some x -> In (c, x) al.
+Definition msg_url_ok (al : list (Z * Z)) (m : msgOH) : Prop :=
+  match m with MyRef c _ u => url_ok al c u | Ack _ => True end.
+
+Record UrlWf (s : state) : Prop := {
+  uw_ch : Forall (msg_url_ok (o_alloc (ow s))) (ch_oh s);
+  uw_trk : Forall (fun t => url_ok (o_alloc (ow s)) (t_clid t) (t_url t)) (h_trk (hd s))
+}.
+
+Lemma UrlWf_init : UrlWf init.
+Proof. constructor; cbn; constructor. Qed.
+
+Lemma url_ok_mono al al' c u : (forall a, In a al -> In a al') -> url_ok al c u -> url_ok al' c u.
+Proof. intros H K x E. apply H, K, E. Qed.
+
+Lemma msg_url_ok_mono al al' m : (forall a, In a al -> In a al') -> msg_url_ok al m -> msg_url_ok al' m.
+Proof. intros H. destruct m; cbn [msg_url_ok]; [apply url_ok_mono; exact H | auto]. Qed.
+
+Lemma UrlWf_same_owner s s' :
+  o_alloc (ow s') = o_alloc (ow s) ->
+  Forall (msg_url_ok (o_alloc (ow s))) (ch_oh s') ->
+  Forall (fun t => url_ok (o_alloc (ow s)) (t_clid t) (t_url t)) (h_trk (hd s')) -> UrlWf s'.
+Proof. intros E A B. constructor; rewrite E; assumption. Qed.
+
+Lemma Forall_upd_nth_keep {A} (P : A -> Prop) l i f : Forall P l -> (forall a, P a -> P (f a)) -> Forall P (upd_nth l i f).
+Proof.
+  intros H Hf. revert i. induction H as [|a l Ha Hl IH]; intros i; destruct i; cbn [upd_nth]; constructor; auto.
+Qed.
+
+Lemma UrlWf_step s o : OwnWf s -> UrlWf s -> UrlWf (fst (step s o)).
+Proof.
+  intros W U. unfold step. destruct (lost s); [exact U|]. destruct o; cbn [fst].
+  - (* Send: the URL on the wire names the object the clid was (or is now) allocated for *)
+    unfold do_send. destruct (find_obj (o_tab (ow s)) x) as [e|] eqn:F; rewrite send_spec; cbn [fst].
+    + constructor; cbn [ow o_alloc ch_oh hd].
+      * apply Forall_app. split; [apply (uw_ch s U)|]. constructor; [|constructor]. cbn [msg_url_ok]. intros y Ey.
+        unfold myref_url in Ey. apply find_some in F as [Hin Ex]. apply Z.eqb_eq in Ex.
+        pose proof (ow_logged s W) as G. rewrite Forall_forall in G. specialize (G e Hin). rewrite Ex in G.
+        destruct myref_long_form; [destruct (_ =? 1)|]; inversion Ey; subst y; exact G.
+      * apply (uw_trk s U).
+    + constructor; cbn [ow o_alloc ch_oh hd].
+      * apply Forall_app. split.
+        -- apply Forall_impl with (2 := uw_ch s U). intros m. apply msg_url_ok_mono. intros a Ha. right. exact Ha.
+        -- constructor; [|constructor]. cbn [msg_url_ok]. intros y Ey. unfold myref_url in Ey.
+           destruct myref_long_form; [destruct (_ =? 1)|]; inversion Ey; subst y; left; reflexivity.
+      * apply Forall_impl with (2 := uw_trk s U). intros t. apply url_ok_mono. intros a Ha. right. exact Ha.
+  - (* RecvOH: a new tracker takes the URL of the message that creates it *)
+    unfold do_recv_oh. destruct (ch_oh s) as [|[c [|] w|rid] rest] eqn:Hch; cbn [fst]; try exact U.
+    + pose proof (uw_ch s U) as C. rewrite Hch in C. inversion C; subst.
+      apply (UrlWf_same_owner s); [reflexivity | assumption | apply (uw_trk s U)].
+    + pose proof (uw_ch s U) as C. rewrite Hch in C. inversion C as [|m l Hm Hl]; subst.
+      rewrite do_myref_eq. unfold myref_core. destruct (nth_error (myref_trk s c w) (myref_idx s c)) as [t|] eqn:Ht; [|exact U].
+      assert (T0 : Forall (fun t => url_ok (o_alloc (ow s)) (t_clid t) (t_url t)) (myref_trk s c w)).
+      { unfold myref_trk. destruct (tab_get _ _); [apply (uw_trk s U)|]. apply Forall_app. split; [apply (uw_trk s U)|].
+        constructor; [exact Hm | constructor]. }
+      assert (Tt : url_ok (o_alloc (ow s)) (t_clid t) (t_url t)).
+      { rewrite Forall_forall in T0. apply T0. eapply nth_error_In; eauto. }
+      unfold get_ref. destruct (t_proxy t); cbn [fst];
+        (apply (UrlWf_same_owner s); [reflexivity | exact Hl |]; cbn [hd h_trk];
+         apply Forall_upd_nth_keep; [exact T0 | intros a _; exact Tt]).
+    + pose proof (uw_ch s U) as C. rewrite Hch in C. inversion C; subst.
+      unfold do_ack. apply (UrlWf_same_owner s); [reflexivity | assumption | apply (uw_trk s U)].
+  - (* RecvHO: nothing the URLs depend on changes (the allocation log is untouched) *)
+    unfold do_recv_ho. destruct (ch_ho s) as [|[c n rid|c k] rest]; cbn [fst]; try exact U.
+    + destruct (find_clid (o_tab (ow s)) c) as [e|].
+      * destruct (decref n (oe_rc e)) as [[done v]|]; cbn [fst]; apply (UrlWf_same_owner s); cbn [ow o_alloc ch_oh hd]; try reflexivity;
+          try apply (uw_trk s U); try apply (uw_ch s U).
+        apply Forall_app. split; [apply (uw_ch s U) | constructor; [exact I | constructor]].
+      * apply (UrlWf_same_owner s); cbn [ow o_alloc ch_oh hd]; [reflexivity | | apply (uw_trk s U)].
+        apply Forall_app. split; [apply (uw_ch s U) | constructor; [exact I | constructor]].
+    + apply (UrlWf_same_owner s); [reflexivity | apply (uw_ch s U) | apply (uw_trk s U)].
+  - unfold do_drop. destruct (find_proxy _ _) as [i|]; cbn [fst]; [|exact U].
+    apply (UrlWf_same_owner s); [reflexivity | apply (uw_ch s U) |]. cbn [hd h_trk].
+    apply Forall_upd_nth_keep; [apply (uw_trk s U) | intros a Ha; exact Ha].
+  - unfold do_reflost. destruct (h_pend (hd s)) as [|i pend]; [exact U|]. destruct (nth_error _ _) as [t|]; [|exact U].
+    destruct (t_proxy t); [apply (UrlWf_same_owner s); [reflexivity | apply (uw_ch s U) | apply (uw_trk s U)]|].
+    destruct (handleRefLost_assign (t_recv t)) as [cnt0 r'].
+    destruct (handleRefLost_skip cnt0); cbn [fst]; (apply (UrlWf_same_owner s); [reflexivity | apply (uw_ch s U) |]; cbn [hd h_trk];
+      apply Forall_upd_nth_keep; [apply (uw_trk s U) | intros a Ha; exact Ha]).
+  - unfold do_home. destruct (find_proxy _ _); [|exact U]. destruct (nth_error _ _); [|exact U].
+    apply (UrlWf_same_owner s); [reflexivity | apply (uw_ch s U) | apply (uw_trk s U)].
+  - unfold do_lost. cbn [fst]. constructor; cbn [ch_oh hd h_trk]; constructor.
+Qed.
+
+Lemma UrlWf_run ops : forall s, OwnWf s -> UrlWf s -> UrlWf (run s ops).
+Proof.
+  induction ops as [|o r IH]; intros s W U; cbn [run]; [exact U|]. apply IH; [apply OwnWf_step, W | apply UrlWf_step; assumption].
+Qed.
+
+(* "the FURL a proxy's tracker carries": None = the tracker knows none *)
+Definition proxy_url (s : state) (p : Z) : option Z :=
+  match find_proxy (h_trk (hd s)) p with
+  | Some i => match nth_error (h_trk (hd s)) i with Some t => t_url t | None => None end
+  | None => None
+  end.
+
+(* (U1) soundness, every history: a FURL a tracker carries names the very object the proxy designates -- the object its
+   clid was allocated for (and no other: alloc_functional) *)
+Theorem tracker_url_names_object ops :
+  let s := run init ops in
+  forall i t x, nth_error (h_trk (hd s)) i = Some t -> t_url t = Some x -> In (t_clid t, x) (o_alloc (ow s)).
+Proof.
+  intros s i t x Ht Hu. pose proof (UrlWf_run ops init OwnWf_init UrlWf_init) as U. fold s in U.
+  pose proof (uw_trk s U) as T. rewrite Forall_forall in T. apply (T t (nth_error_In _ _ Ht) x Hu).
+Qed.
+
+Theorem proxy_url_names_designated_object ops p x y :
+  let s := run init ops in
+  denotes s p x -> proxy_url s p = Some y -> y = x.
+Proof.
+  intros s (i & t & Ht & Hp & Ha) Hy. unfold proxy_url in Hy.
+  pose proof (Inv_run ops init Inv_init) as I. fold s in I.
+  pose proof (ProxWf_run ops init Inv_init ProxWf_init) as PWf. fold s in PWf.
+  destruct (find_proxy (h_trk (hd s)) p) as [j|] eqn:F; [|discriminate].
+  destruct (find_proxy_some _ _ _ F) as (u & Hu & Hpu). rewrite Hu in Hy.
+  assert (j = i) by (destruct PWf as [_ W2]; eapply W2; eauto). subst j. rewrite Ht in Hu. inversion Hu; subst u.
+  pose proof (tracker_url_names_object ops i t y Ht Hy) as Hay. fold s in Hay.
+  pose proof (OwnWf_run ops init OwnWf_init) as W. fold s in W.
+  pose proof (ow_alloc_nodup s W) as N.
+  (* one clid, one object *)
+  clear - Ha Hay N. induction (o_alloc (ow s)) as [|a l IH]; [destruct Ha|].
+  cbn [map] in N. inversion N as [|? ? Hn N']; subst. destruct Ha as [->|Ha]; destruct Hay as [E|Hay].
+  - inversion E. reflexivity.
+  - exfalso. apply Hn. apply in_map_iff. exists (t_clid t, y). split; [reflexivity | exact Hay].
+  - subst a. exfalso. apply Hn. apply in_map_iff. exists (t_clid t, x). split; [reflexivity | exact Ha].
+  - apply IH; assumption.
+Qed.
+
+(* (U2) where a URL comes from: the first my-reference of an object carries it ... *)
+Theorem first_reference_carries_url ops x d :
+  let s := run init ops in lost s = false -> find_obj (o_tab (ow s)) x = None ->
+  exists c, ch_oh (fst (step s (Send x d))) = ch_oh s ++ [MyRef c d (Some x)].
+Proof.
+  intros s Hl F. unfold step. rewrite Hl. unfold do_send. rewrite F.
+  rewrite rc_cons. cbn [oe_clid oe_rc]. rewrite Z.eqb_refl, send_spec. cbn [fst ch_oh]. eexists. reflexivity.
+Qed.
+
+(* ... a re-send of an object the owner still counts does not (refcount >= 1 before the send) ... *)
+Theorem resend_carries_no_url ops x d e :
+  let s := run init ops in lost s = false -> find_obj (o_tab (ow s)) x = Some e ->
+  ch_oh (fst (step s (Send x d))) = ch_oh s ++ [MyRef (oe_clid e) d None].
+Proof.
+  intros s Hl F. unfold step. rewrite Hl. unfold do_send. rewrite F. rewrite send_spec. cbn [fst ch_oh].
+  pose proof (Inv_run ops init Inv_init) as I. fold s in I.
+  assert (P : 1 <= rc (o_tab (ow s)) (oe_clid e)).
+  { apply find_some in F as [Hin _]. pose proof (inv_own s I) as H. rewrite Forall_forall in H. specialize (H e Hin).
+    assert (Fe : exists e', find_clid (o_tab (ow s)) (oe_clid e) = Some e').
+    { destruct (find_clid (o_tab (ow s)) (oe_clid e)) as [e'|] eqn:F'; [eauto|]. exfalso. eapply find_clid_none; eauto. }
+    destruct Fe as (e' & Fe'). unfold rc. rewrite Fe'. apply find_clid_some in Fe' as [Hin' _].
+    pose proof (inv_own s I) as H'. rewrite Forall_forall in H'. specialize (H' e' Hin'). lia. }
+  unfold myref_url. assert (E : myref_long_form = LongWhenFirst) by reflexivity. rewrite E.
+  replace (rc (o_tab (ow s)) (oe_clid e) + 1 =? 1) with false by (symmetry; apply Z.eqb_neq; lia). reflexivity.
+Qed.
+
+(* proxy_url is the URL of THE tracker that has the live proxy (there is exactly one: ProxWf) *)
+Lemma proxy_url_of_tracker ops p i t :
+  let s := run init ops in
+  nth_error (h_trk (hd s)) i = Some t -> t_proxy t = Some p -> proxy_url s p = t_url t.
+Proof.
+  intros s Ht Hp. unfold proxy_url.
+  pose proof (ProxWf_run ops init Inv_init ProxWf_init) as PWf. fold s in PWf.
+  destruct (find_proxy_complete _ _ _ _ Ht Hp) as (j & F). rewrite F.
+  destruct (find_proxy_some _ _ _ F) as (u & Hu & Hpu). rewrite Hu.
+  assert (j = i) by (destruct PWf as [_ W2]; eapply W2; eauto). subst j. congruence.
+Qed.
+
+(* ... and a tracker made for a my-reference takes exactly the URL of that message *)
+Theorem new_tracker_takes_url_of_message ops c w rest :
+  let s := run init ops in lost s = false -> ch_oh s = MyRef c false w :: rest -> tab_get (h_tab (hd s)) c = None ->
+  exists p, snd (step s RecvOH) = [EvDelivered p] /\ proxy_url (fst (step s RecvOH)) p = w.
+Proof.
+  intros s Hl Hch G.
+  assert (E : fst (step s RecvOH) = run init (ops ++ [RecvOH])) by (rewrite run_app; reflexivity).
+  assert (K : exists p i t, snd (step s RecvOH) = [EvDelivered p] /\ nth_error (h_trk (hd (fst (step s RecvOH)))) i = Some t /\
+                            t_proxy t = Some p /\ t_url t = w).
+  { unfold step. rewrite Hl. unfold do_recv_oh. rewrite Hch. unfold do_myref. rewrite G, nth_error_app_last.
+    unfold get_ref. cbn [t_proxy fst snd hd h_trk]. rewrite upd_nth_app_last.
+    eexists. exists (List.length (h_trk (hd s))). eexists. split; [reflexivity|]. split; [apply nth_error_app_last|].
+    cbn [t_proxy t_url]. split; reflexivity. }
+  destruct K as (p & i & t & Hev & Ht & Hp & Hu). exists p. split; [exact Hev|].
+  rewrite E in *. rewrite (proxy_url_of_tracker (ops ++ [RecvOH]) p i t Ht Hp). exact Hu.
+Qed.
+
+(* (U3) ... and that is why NOT every live proxy has one: when the holder has forgotten the tracker (its count reached 0 and the
+   answer to its decref arrived) while the owner still counts a reference (a later decref is still under way), the next
+   my-reference is not a first one; the tracker it creates knows no FURL.  The history is the decref window of D16; the
+   proxy delivered at the end is live, designates the object, calls through it reach the object -- but it cannot be
+   handed to a third party. *)
+Definition urlless_ops : list op :=
+  [Send 5 false; RecvOH; DropProxy 0; HandleRefLost; Send 5 false; RecvHO; RecvOH; DropProxy 1; HandleRefLost; RecvOH;
+   Send 5 false; RecvOH].
+
+Theorem live_proxy_without_url :
+  exists ops p x, let s := run init ops in
+    lost s = false /\ holds s p /\ denotes s p x /\ proxy_url s p = None /\
+    (* the owner does count it, and a call through it reaches x (after the decref that is still under way) *)
+    ch_ho s = [Decref 1 1 2] /\
+    snd (step (run s [SendHome p true; RecvHO]) RecvHO) = [EvHome true (Some x)].
+Proof.
+  exists urlless_ops, 2, 5. cbv zeta. split; [vm_compute; reflexivity|]. split.
+  { exists 1%nat. eexists. split; vm_compute; reflexivity. }
+  split.
+  { exists 1%nat. eexists. split; [vm_compute; reflexivity|]. split; [vm_compute; reflexivity|]. vm_compute. left. reflexivity. }
+  split; [vm_compute; reflexivity|]. split; vm_compute; reflexivity.
+Qed.
+
+(* the exact condition under which a freshly delivered proxy knows its FURL: its tracker was in the table (and had one), or
+   the my-reference was a first one *)
+Theorem delivered_proxy_url ops c w rest :
+  let s := run init ops in lost s = false -> ch_oh s = MyRef c false w :: rest ->
+  exists p, snd (step s RecvOH) = [EvDelivered p] /\
+    proxy_url (fst (step s RecvOH)) p =
+      match tab_get (h_tab (hd s)) c with
+      | Some i => match nth_error (h_trk (hd s)) i with Some t => t_url t | None => None end
+      | None => w
+      end.
+Proof.
+  intros s Hl Hch. destruct (tab_get (h_tab (hd s)) c) as [i|] eqn:G.
+  - pose proof (Inv_run ops init Inv_init) as I. fold s in I.
+    destruct (inv_tab s I _ _ G) as (t & Ht & Hc). rewrite Ht.
+    assert (E : fst (step s RecvOH) = run init (ops ++ [RecvOH])) by (rewrite run_app; reflexivity).
+    assert (K : exists p t', snd (step s RecvOH) = [EvDelivered p] /\ nth_error (h_trk (hd (fst (step s RecvOH)))) i = Some t' /\
+                             t_proxy t' = Some p /\ t_url t' = t_url t).
+    { unfold step. rewrite Hl. unfold do_recv_oh. rewrite Hch. unfold do_myref. rewrite G, Ht.
+      unfold get_ref. destruct (t_proxy t) as [q|]; cbn [fst snd hd h_trk]; rewrite nth_error_upd_nth, Nat.eqb_refl, Ht; cbn [option_map];
+        eexists; eexists; (split; [reflexivity|]); (split; [reflexivity|]); cbn [t_proxy t_url]; split; reflexivity. }
+    destruct K as (p & t' & Hev & Ht' & Hp & Hu). exists p. split; [exact Hev|].
+    rewrite E in *. rewrite (proxy_url_of_tracker (ops ++ [RecvOH]) p i t' Ht' Hp). exact Hu.
+  - apply (new_tracker_takes_url_of_message ops c w rest); assumption.
+Qed.
